@@ -142,6 +142,11 @@ def drive(dec, stream, raw, chunks, spec, t, budget):
 
 
 def run_kind(dec, kind, chunks, spec, t, max_read=None):
+    if kind == 'K5':
+        # a buffered reader over a growing non-blocking raw stream (io.BufferedReader: has peek(); answers None from
+        # read() and b'' from peek() while nothing has arrived)
+        raw = streams.GrowingStream(seekable=True, max_read=max_read)
+        return drive(dec, io.BufferedReader(raw), raw, chunks, spec, t, len(chunks) + 64)
     raw = streams.GrowingStream(seekable=(kind == 'K3'), max_read=max_read)
     return drive(dec, raw, raw, chunks, spec, t, len(chunks) + 64)
 
@@ -270,8 +275,9 @@ def check_exhaustive(rep, name, cdc, ts, hexdata, n_items, limit):
     bad = 0
     for chunks in partitions(data):
         for sched in variants(chunks):
-            for kind in KINDS:
-                if not check_schedule(rep, name, cdc, ts, t, spec, data, whole, kind, sched, item_ends=ends):
+            for kind in KINDS + ('K5',):
+                if not check_schedule(rep, name, cdc, ts, t, spec, data, whole, kind, sched, item_ends=ends,
+                                      with_model=(kind != 'K5')):
                     bad += 1
                     if bad > 3:
                         return
